@@ -7,7 +7,7 @@ import re
 
 PRELUDE = '''
 from dataclasses import dataclass
-from typing import Dict, List, Optional, Sequence, Tuple, Type, TypeVar, Union
+from typing import Callable, Dict, List, Optional, Sequence, Tuple, Type, TypeVar, Union
 T = TypeVar("T")
 N = TypeVar("N", bound=float)
 C = TypeVar("C", int, str)
@@ -57,6 +57,14 @@ TN = TypeVar("TN", bound="NW2")
 class NW2:
     def __new__(cls: Type[TN], v: int) -> TN:
         return object.__new__(cls)
+def takes_int(v: int) -> object:
+    return v
+def takes_str(v: str) -> object:
+    return v
+def apply2(x: T, cb1: Callable[[T], object], cb2: Callable[[T], object]) -> T:
+    return x
+def either(x: Union[T, List[T]], y: T) -> T:
+    return y
 def ident(x: T) -> T:
     return x
 def first(xs: List[T]) -> T:
@@ -118,6 +126,12 @@ def calls():
     out += [("f_baddef()", True), ("f_baddef(1)", True), ("f_baddef(None)", False), ("f_baddef(x=None)", False), ("f_baddef(1, 0)", False), ("f_baddef(1, 's')", True)]
     # constructors through a Python-level __new__ with an annotated cls
     out += [("NW(1)", True), ("NW('a')", False), ("NW2(1)", True), ("NW2('a')", False), ("NW(v=True)", True), ("NW2(None)", False)]
+    # several star-arguments of unknown length in one call (the argument lists are parameters of use())
+    out += [("f_star(*ints, *ints)", True), ("f_star(*strs, *ints)", False), ("f_star(*ints, *strs)", False), ("f_star(*ints, 's', *ints)", False), ("f_star(*ints, 1, *ints)", True),
+            ("f_star(*strs)", False), ("f_star(1, *strs, 2)", False)]
+    # generic parameters are re-checked against the solved type variable (several upper bounds, union-typed parameters)
+    out += [("apply2(1, takes_int, takes_int)", True), ("apply2(1, takes_int, takes_str)", False), ("apply2('s', takes_str, takes_str)", True), ("apply2('s', takes_str, takes_int)", False),
+            ("either(ints, 1)", None), ("either(ints, 'a')", False), ("either(1, 2)", None)]   # None: a generic call may be rejected when no solution is found (the statement allows `or an error is reported`)
     for a in ["[1]", "['a']", "[1.5, 2.5]"]:
         out.append((f"first({a})", True))
     for a, b in itertools.product(["1", "'s'", "1.5", "True"], repeat=2):
@@ -163,7 +177,7 @@ def in_revealed(o, txt):
 def search():
     from replay.checkcode import check_code
     cs = calls()
-    lines = PRELUDE.strip("\n").split("\n") + ["def use() -> None:"]
+    lines = PRELUDE.strip("\n").split("\n") + ["def use(ints: List[int], strs: List[str]) -> None:"]
     base = len(lines)
     for src, _ in cs:
         lines.append(f"    reveal_type({src})")
@@ -175,7 +189,7 @@ def search():
         elif fl["code"].name == "reveal_type":
             m = re.search(r"Revealed type is '(.*)'", fl["description"], re.S)
             rev[fl["lineno"]] = m.group(1) if m else fl["description"]
-    env = {}
+    env = {"ints": [1, 2], "strs": ["a"]}
     exec(PRELUDE, env)
     for i, (src, ok) in enumerate(cs):
         ln = base + 1 + i
